@@ -228,8 +228,15 @@ fn consumer_ops() -> Vec<COp> {
 }
 
 fn dfs_consumer<const N: usize>(rep: &mut Report, path: &mut Vec<COp>, depth: usize) {
-    if !run_consumer::<N>(rep, path) {
-        return;
+    // a panic that escapes the per-operation catch() (e.g. inside as_slice or a Drop impl) is an unexpected panic of konst
+    match catch(|| run_consumer::<N>(rep, path)) {
+        Ok(true) => {}
+        Ok(false) => return,
+        Err(p) => {
+            let ps = path_str(path);
+            fail(rep, "C15", "ArrayConsumer", N, &ps, "unexpected panic (as_slice / as_mut_slice / clone / drop)", "no panic".into(), format!("panic: {p}"));
+            return;
+        }
     }
     if path.len() >= depth {
         return;
@@ -353,8 +360,14 @@ fn run_builder<const N: usize>(rep: &mut Report, path: &[BOp]) -> bool {
 }
 
 fn dfs_builder<const N: usize>(rep: &mut Report, path: &mut Vec<BOp>, depth: usize) {
-    if !run_builder::<N>(rep, path) {
-        return;
+    match catch(|| run_builder::<N>(rep, path)) {
+        Ok(true) => {}
+        Ok(false) => return,
+        Err(p) => {
+            let ps = path_str(path);
+            fail(rep, "C11", "ArrayBuilder", N, &ps, "unexpected panic (as_slice / as_mut_slice / clone / drop)", "no panic".into(), format!("panic: {p}"));
+            return;
+        }
     }
     if path.len() >= depth {
         return;
@@ -460,13 +473,13 @@ pub fn run(which: &str, tier: Tier, rep: &mut Report) -> (String, String) {
             0 => {
                 let ops = consumer_ops();
                 let mut path = vec![if first == ops.len() { COp::StartEmpty } else { ops[first] }];
-                if first == 0 { let mut e = vec![]; for_n!(run_consumer, r, n, &e); e.clear(); }
+                if first == 0 { let mut e = vec![]; for_n!(dfs_consumer, r, n, &mut e, 0); }
                 for_n!(dfs_consumer, r, n, &mut path, depth);
             }
             1 => {
                 let ops = [BOp::Push(0), BOp::Build(0), BOp::Drop(0), BOp::Clone, BOp::Push(1), BOp::Build(1), BOp::Drop(1)];
                 let mut path = vec![ops[first]];
-                if first == 0 { let e = vec![]; for_n!(run_builder, r, n, &e); }
+                if first == 0 { let mut e = vec![]; for_n!(dfs_builder, r, n, &mut e, 0); }
                 for_n!(dfs_builder, r, n, &mut path, depth);
             }
             _ => { for_n!(map_by_value, r, n); }
